@@ -560,6 +560,41 @@ func init() {
 		outside: "patterns longer than the bound; limits not exceeding the longest nil run (outside the statement's precondition)",
 		assumptions: []string{"known findings are keyed by the nil pattern (a letter per element, '.' per nil) and the failing assertion"},
 	})
+
+	register(&property{
+		id: "C05",
+		gen: func(tier string, seed int) []symx.CaseSpec {
+			var out []symx.CaseSpec
+			// one case per leaf type as sole content, all mutations
+			for t := 0; t < 12; t++ {
+				for mut := 0; mut <= 5; mut++ {
+					out = append(out, cs("VH_C05", 1, 4, mut, 0, 1, t, 1))
+				}
+				for mut := 0; mut <= 3; mut++ {
+					if t < 11 {
+						out = append(out, cs("VH_C05_Cond", t, mut))
+					}
+				}
+			}
+			n := q(tier, 60, 600)
+			r := uint64(seed)*2654435761 + 5
+			for i := 0; i < n; i++ {
+				var digits []int
+				for k := 0; k < 30; k++ {
+					r = r*6364136223846793005 + 1442695040888963407
+					digits = append(digits, int((r>>33)%1680))
+				}
+				out = append(out, cs("VH_C05", append([]int{1 + i%2, 3 + i%3, i % 6}, digits...)...))
+			}
+			return out
+		},
+		boundsText: map[string]string{
+			"quick":    "every leaf type (int, string, bool, *int, **int, []int, [3]int, map[string]int, struct, struct with unexported field, nil) as content with every mutation {none, swap siblings, one more, one fewer, other kind, other capacity}; Conditions over every leaf type x {keyword, operator, expression-type} mutations with operator codes symbolic; 60 seeded trees (depth<=2, width<=3, <=5 scalar variables per side); every scalar leaf value is a pair of unconstrained 64-bit variables",
+			"thorough": "as quick with 600 seeded trees",
+		},
+		outside: "floats/NaN, funcs, chans, typed-nil pointers as compared leaves; custom equality policies (C14); case-folded kinds",
+		assumptions: []string{"the reference verdict is computed by a plain comparison over the harness's closed type universe"},
+	})
 }
 
 var _ = fmt.Sprint
